@@ -1,0 +1,221 @@
+//go:build verif
+
+package pubsub
+
+// Contracts for the publish / subscribe / unsubscribe / last-will handlers (properties C02, C07, C08, C11).
+// Everything a handler talks to - the authorizer, the trie, the store, the notifier, the connection, channel
+// parsing - is recorded in the ghost call trace; a postcondition is a statement about WHICH calls happened, in
+// which order, with which arguments. "A request that fails parsing or authorization changes nothing" is: no
+// effect event in the trace. The induction over whole request histories that these per-request contracts feed is
+// a lemma over contracts (DESIGN section 6 C02), not repeated here.
+
+import (
+	"github.com/emitter-io/emitter/internal/errors"
+	"github.com/emitter-io/emitter/internal/event"
+	"github.com/emitter-io/emitter/internal/message"
+	"github.com/emitter-io/emitter/internal/network/mqtt"
+	"github.com/emitter-io/emitter/internal/provider/contract"
+	"github.com/emitter-io/emitter/internal/security"
+	"github.com/emitter-io/emitter/internal/service"
+	vs "github.com/emitter-io/emitter/internal/verifspec"
+)
+
+// ---- collaborators kept outside these proofs (recorded, results constrained only as stated)
+
+//@ assume github.com/emitter-io/emitter/internal/security.ParseChannel iface post=post_ParseChannel
+func post_ParseChannel(res0 *security.Channel) bool { return res0 != nil }
+
+//@ assume (*github.com/emitter-io/emitter/internal/security.Channel).TTL iface
+//@ assume (*github.com/emitter-io/emitter/internal/security.Channel).Last iface
+//@ assume (*github.com/emitter-io/emitter/internal/security.Channel).Window iface
+//@ assume (*github.com/emitter-io/emitter/internal/security.Channel).Exclude iface
+//@ assume (*github.com/emitter-io/emitter/internal/message.Trie).Subscribe iface
+//@ assume (*github.com/emitter-io/emitter/internal/message.Trie).Unsubscribe iface
+//@ assume (*github.com/emitter-io/emitter/internal/message.Trie).Lookup iface post=post_Trie_Lookup
+func post_Trie_Lookup(res0 message.Subscribers) bool { return res0 != nil }
+
+// message.New keeps channel and payload as given and stores nothing by default (its id layout is C19's subject)
+//@ assume github.com/emitter-io/emitter/internal/message.New iface post=post_message_New
+func post_message_New(channel, payload []byte, res0 *message.Message) bool {
+	return res0 != nil && res0.TTL == 0 && vs.SameBytes(res0.Channel, channel) && vs.SameBytes(res0.Payload, payload)
+}
+
+//@ assume (*Service).Publish iface
+//@ assume (*Service).onEmitterRequest iface
+
+// an authorizer that allows returns the contract and the 24-byte key it decrypted (proved for broker.Service under C03)
+//@ assume (github.com/emitter-io/emitter/internal/service.Authorizer).Authorize iface post=post_Authorize
+func post_Authorize(res0 contract.Contract, res1 security.Key, res2 bool) bool {
+	return !res2 || (res0 != nil && len(res1) == 24)
+}
+
+//@ assume (github.com/emitter-io/emitter/internal/provider/contract.Contract).Stats iface post=post_Stats
+func post_Stats(res0 interface{ AddIngress(int64) }) bool { return res0 != nil }
+
+func pre_Service(s *Service) bool {
+	return s != nil && s.auth != nil && s.store != nil && s.notifier != nil && s.trie != nil
+}
+
+// specNoEffect: nothing that changes broker state or reaches a client happened
+func specNoEffect() bool {
+	return vs.TraceCount("Trie).Subscribe") == 0 && vs.TraceCount("Trie).Unsubscribe") == 0 && vs.TraceCount(".Store") == 0 &&
+		vs.TraceCount(".Send") == 0 && vs.TraceCount("Service).Publish") == 0 && vs.TraceCount("NotifySubscribe") == 0 &&
+		vs.TraceCount("NotifyUnsubscribe") == 0 && vs.TraceCount(".Query") == 0
+}
+
+func specRejected(err *errors.Error) bool {
+	return err == errors.ErrBadRequest || err == errors.ErrForbidden || err == errors.ErrUnauthorized || err == errors.ErrUnauthorizedExt
+}
+
+// specAuthorizedFor: Authorize was asked for exactly this permission, allowed it, and the key is not extendable
+func specAuthorizedFor(perm uint8) bool {
+	a := vs.TraceFind("Authorize")
+	key := vs.TraceRet[security.Key](a, 1)
+	return a >= 0 && vs.TraceCount("Authorize") == 1 && vs.TraceArg[uint8](a, 2) == perm && vs.TraceRet[bool](a, 2) &&
+		len(key) == 24 && key[15]&security.AllowExtend == 0
+}
+
+// ---------------------------------------------------------------------------------------------------------
+// Subscribe / Unsubscribe: the coupling between the connection's bookkeeping and the trie (C02, C08)
+
+//@ verify (*Service).Subscribe pre=pre_Sub post=post_Subscribe props=C02,C08
+func pre_Sub(s *Service, sub message.Subscriber, ev *event.Subscription) bool {
+	return pre_Service(s) && sub != nil && ev != nil
+}
+func post_Subscribe(s *Service, sub message.Subscriber, ev *event.Subscription, res0 bool) bool {
+	// returns false with no effect exactly when the connection already holds the filter; otherwise exactly one
+	// trie.Subscribe followed by exactly one NotifySubscribe
+	if !res0 {
+		c := vs.TraceFind("CanSubscribe")
+		return c >= 0 && !vs.TraceRet[bool](c, 0) && specNoEffect()
+	}
+	t, n := vs.TraceFind("Trie).Subscribe"), vs.TraceFind("NotifySubscribe")
+	return vs.TraceCount("Trie).Subscribe") == 1 && vs.TraceCount("NotifySubscribe") == 1 && t >= 0 && t < n &&
+		vs.TraceCount("Trie).Unsubscribe") == 0
+}
+
+//@ verify (*Service).Unsubscribe pre=pre_Sub post=post_Unsubscribe props=C02,C08
+func post_Unsubscribe(s *Service, sub message.Subscriber, ev *event.Subscription, res0 bool) bool {
+	c := vs.TraceFind("CanUnsubscribe")
+	if c >= 0 && !vs.TraceRet[bool](c, 0) { // the connection does not hold the filter (or holds it more than once): nothing
+		return !res0 && specNoEffect()
+	}
+	// otherwise the trie entry is removed iff it was there, and presence watchers are told once
+	return vs.TraceCount("Trie).Subscribe") == 0 && vs.TraceCount("Trie).Unsubscribe") == specB2I(res0) &&
+		vs.TraceCount("NotifyUnsubscribe") == 1
+}
+
+func specB2I(b bool) int {
+	if b {
+		return 1
+	}
+	return 0
+}
+
+// ---------------------------------------------------------------------------------------------------------
+// OnSubscribe (C02, C07, C11)
+
+//@ verify (*Service).OnSubscribe pre=pre_OnSub post=post_OnSubscribe_reject,post_OnSubscribe_auth,post_OnSubscribe_sub,post_OnSubscribe_replay props=C02,C07,C11
+//@ loop (*Service).OnSubscribe 0 unroll 2 bounded
+func pre_OnSub(s *Service, c service.Conn) bool { return pre_Service(s) && c != nil }
+func post_OnSubscribe_reject(s *Service, res0 *errors.Error) bool {
+	// a request that fails parsing or authorization changes nothing
+	return !specRejected(res0) || specNoEffect()
+}
+func post_OnSubscribe_auth(s *Service, res0 *errors.Error) bool {
+	// every effect is preceded by a successful Authorize for AllowRead with a non-extendable key
+	return specNoEffect() || (specAuthorizedFor(security.AllowRead) && vs.TraceFind("Authorize") < vs.TraceFind("CanSubscribe"))
+}
+func post_OnSubscribe_sub(s *Service, res0 *errors.Error) bool {
+	// an accepted request consults the connection's bookkeeping once and subscribes in the trie iff it said "first"
+	if specRejected(res0) {
+		return true
+	}
+	c := vs.TraceFind("CanSubscribe")
+	return c >= 0 && vs.TraceCount("CanSubscribe") == 1 && vs.TraceCount("Trie).Subscribe") == specB2I(vs.TraceRet[bool](c, 0))
+}
+func post_OnSubscribe_replay(s *Service, res0 *errors.Error) bool {
+	// history is queried iff the key has the load permission, once, with limit = the last option or 1; without it
+	// nothing is replayed
+	if specRejected(res0) {
+		return true
+	}
+	a, q, l := vs.TraceFind("Authorize"), vs.TraceFind(".Query"), vs.TraceFind("Channel).Last")
+	key := vs.TraceRet[security.Key](a, 1)
+	if key[15]&security.AllowLoad == 0 {
+		return q < 0 && vs.TraceCount(".Send") == 0
+	}
+	want := int64(1)
+	if vs.TraceRet[bool](l, 1) {
+		want = vs.TraceRet[int64](l, 0)
+	}
+	return q >= 0 && vs.TraceCount(".Query") == 1 && l >= 0 && vs.TraceArg[int](q, 5) == int(want) &&
+		vs.TraceFind("CanSubscribe") < q // the replay follows the subscribe decision
+}
+
+// ---------------------------------------------------------------------------------------------------------
+// OnUnsubscribe (C02, C11)
+
+//@ verify (*Service).OnUnsubscribe pre=pre_OnSub post=post_OnUnsubscribe_reject,post_OnUnsubscribe_auth props=C02,C11
+func post_OnUnsubscribe_reject(s *Service, res0 *errors.Error) bool { return !specRejected(res0) || specNoEffect() }
+func post_OnUnsubscribe_auth(s *Service, res0 *errors.Error) bool {
+	return specNoEffect() || (specAuthorizedFor(security.AllowRead) && vs.TraceFind("Authorize") < vs.TraceFind("CanUnsubscribe"))
+}
+
+// ---------------------------------------------------------------------------------------------------------
+// OnPublish (C02, C07, C11)
+
+//@ verify (*Service).OnPublish pre=pre_OnPublish post=post_OnPublish_reject,post_OnPublish_auth,post_OnPublish_store,post_OnPublish_msg props=C02,C07,C11
+func pre_OnPublish(s *Service, c service.Conn, packet *mqtt.Publish) bool {
+	return pre_Service(s) && c != nil && packet != nil
+}
+func specIsRequest() bool { return vs.TraceCount("onEmitterRequest") > 0 }
+func post_OnPublish_reject(s *Service, res0 *errors.Error) bool { return !specRejected(res0) || specNoEffect() }
+func post_OnPublish_auth(s *Service, res0 *errors.Error) bool {
+	return specNoEffect() || (specAuthorizedFor(security.AllowWrite) && vs.TraceFind("Authorize") < vs.TraceFind("message.New"))
+}
+func post_OnPublish_store(s *Service, packet *mqtt.Publish, res0 *errors.Error) bool {
+	// stored iff (retain or a positive ttl option) and the key has the store permission; once; before the fan-out;
+	// with the requested ttl (retain = the configured retention marker)
+	if res0 != nil || specIsRequest() {
+		return true
+	}
+	a, t, st, p := vs.TraceFind("Authorize"), vs.TraceFind("Channel).TTL"), vs.TraceFind(".Store"), vs.TraceFind("Service).Publish")
+	key := vs.TraceRet[security.Key](a, 1)
+	ttl, has := vs.TraceRet[int64](t, 0), vs.TraceRet[bool](t, 1)
+	wantTTL := uint32(0)
+	if packet.Header.Retain {
+		wantTTL = message.RetainedTTL
+	}
+	if has && ttl > 0 {
+		wantTTL = uint32(ttl)
+	}
+	should := wantTTL > 0 && key[15]&security.AllowStore != 0
+	msg := vs.TraceRet[*message.Message](vs.TraceFind("message.New"), 0)
+	return t >= 0 && p >= 0 && vs.TraceCount("Service).Publish") == 1 && vs.TraceCount(".Store") == specB2I(should) &&
+		(!should || (st < p && vs.TraceArg[*message.Message](st, 1) == msg)) && msg.TTL == wantTTL
+}
+func post_OnPublish_msg(s *Service, packet *mqtt.Publish, res0 *errors.Error) bool {
+	// the message fanned out carries the channel as parsed (key stripped) and the packet's payload unchanged
+	if res0 != nil || specIsRequest() {
+		return true
+	}
+	ch := vs.TraceRet[*security.Channel](vs.TraceFind("ParseChannel"), 0)
+	msg := vs.TraceRet[*message.Message](vs.TraceFind("message.New"), 0)
+	p := vs.TraceFind("Service).Publish")
+	return p >= 0 && vs.TraceArg[*message.Message](p, 1) == msg && vs.SameBytes(msg.Payload, packet.Payload) && vs.SameBytes(msg.Channel, ch.Channel)
+}
+
+// ---------------------------------------------------------------------------------------------------------
+// OnLastWill (C08, C07): publishes exactly one message iff a will was supplied, its topic parses static, and the
+// key allows publishing (write, not extendable); otherwise nothing
+
+//@ verify (*Service).OnLastWill pre=pre_OnLastWill post=post_OnLastWill props=C08,C07,C11
+func pre_OnLastWill(s *Service) bool { return pre_Service(s) }
+func post_OnLastWill(s *Service, ev *event.Connection, res0 bool) bool {
+	if !res0 {
+		return specNoEffect()
+	}
+	return ev != nil && ev.WillFlag && specAuthorizedFor(security.AllowWrite) && vs.TraceCount("Service).Publish") == 1 &&
+		vs.TraceRet[*security.Channel](vs.TraceFind("ParseChannel"), 0).ChannelType == security.ChannelStatic
+}
